@@ -56,9 +56,15 @@ def findNearestEmpty (target : Int) (empty : List Int) (row : Int) : Option Int 
 def dupPositions (traj : List Int) : List (Int × Nat) :=
   ((List.range traj.length).filter fun k => (traj.take k).contains (traj.getD k 0)).map fun k => (traj.getD k 0, k)
 
+/-- stable insertion into a list sorted by value (positions arrive in ascending order) -/
+def insertByValue (a : Int × Nat) : List (Int × Nat) → List (Int × Nat)
+  | [] => [a]
+  | b :: bs => if a.1 < b.1 then a :: b :: bs else b :: insertByValue a bs
+
+def sortByValue (l : List (Int × Nat)) : List (Int × Nat) := l.foldl (fun acc a => insertByValue a acc) []
+
 /-- `duplicate_indices`: for each repeated value in ascending order, all its positions but the first -/
-def duplicateIndices (traj : List Int) : List Nat :=
-  ((dupPositions traj).mergeSort fun a b => a.1 < b.1 || (a.1 == b.1 && a.2 ≤ b.2)).map (·.2)
+def duplicateIndices (traj : List Int) : List Nat := (sortByValue (dupPositions traj)).map (·.2)
 
 /-- the relocation loop -/
 def relocate : List Nat → List Int → List Int → Int → Option (List Int)
